@@ -22,7 +22,7 @@ def rows():
         if m.get("obsolete"):
             note = " (obsolete: %s)" % cut(str(m["obsolete"]), 120)
         elif m.get("ported"):
-            note = " (re-applied by 3-way merge after later fixes)"
+            note = " (re-made by hand on HEAD after later fixes)" if "by hand" in str(m["ported"]) else " (rebased after later fixes)"
         out.append("| %s | r%s | %s | %s%s |" % (os.path.basename(d), m.get("round", 1), cut(m["summary"], 230),
                                                    cut(m.get("detected_by", "?"), 330), note))
     return out
